@@ -168,6 +168,10 @@ BOOL_FUNCS = {"all", "any", "isfinite", "isclose", "allclose", "equal", "not_equ
 
 def cases(tier, seed):
     out = []
+    for shape in [(67,), (2, 65), (130,)]:
+        for kind in ("i", "f"):
+            out.append({"k": "reductions", "s": list(shape), "rot": 1, "kind": kind})
+            out.append({"k": "elementwise", "s": list(shape), "rot": 1, "kind": kind})
     for shape in SHAPES:
         for rot in (0, 1, 2):
             for kind in ("i", "f", "mag") + (("u1", "i1", "f4", "?") if rot == 0 or shape in ((3,), (2, 3)) else ()):
